@@ -444,7 +444,7 @@ func controlPart() {
 	if !run.Quick() {
 		states = ctlStates
 	}
-	reps := run.Pick(2, 12)
+	reps := run.Pick(2, 36)
 	for rep := 0; rep < reps; rep++ {
 		for _, st := range states {
 			for _, m := range ctlMethods {
@@ -469,7 +469,7 @@ func controlPart() {
 	})
 	// requests from another connection that race with the owner's PLAY / RECORD
 	var races []ctlCase
-	for rep := 0; rep < run.Pick(2, 10); rep++ {
+	for rep := 0; rep < run.Pick(2, 30); rep++ {
 		for _, st := range []string{"pre-play-tcp", "pre-record-tcp"} {
 			for _, m := range ctlMethods {
 				races = append(races, ctlCase{Listen: "v4", State: st, Method: string(m), Origin: "same-ip-other-conn-racing-start", Seed: rs.Int63()})
@@ -480,7 +480,7 @@ func controlPart() {
 		run.Fatal("harness panic in control race case %+v: %v\n%s", races[i], v, stack)
 	})
 	var wg sync.WaitGroup
-	for rep := 0; rep < run.Pick(1, 6); rep++ {
+	for rep := 0; rep < run.Pick(1, 18); rep++ {
 		for _, st := range []string{"play-udp", "play-tcp", "record-udp", "record-tcp"} {
 			wg.Add(1)
 			seed := rs.Int63()
